@@ -207,7 +207,7 @@ def match_known(known, prop, key):
 
 
 # ------------------------------------------------------------------ sanitizer report parsing
-FRAME_RE = re.compile(r'#\d+ 0x[0-9a-f]+ in (.+?) (/\S+?)(?::\d+)*$')
+FRAME_RE = re.compile(r'#\d+ 0x[0-9a-f]+ in (.+?) (\(?/\S+?\)?)(?::\d+)*$')
 
 
 def clean_fn(fn):
@@ -253,7 +253,8 @@ def crash_key(stderr_text, rc):
     frames = []
     for line in stderr_text.splitlines():
         m = FRAME_RE.search(line.strip())
-        if m and ('/src/soplex' in m.group(2) or '/repo/src' in m.group(2)):
+        if m and ('/src/soplex' in m.group(2) or '/repo/src' in m.group(2) or m.group(1).startswith('soplex::') or ' soplex::' in m.group(1)
+                  or m.group(1).startswith('SoPlex_')):
             fn = clean_fn(m.group(1))
             if fn and fn not in frames:
                 frames.append(fn)
@@ -434,7 +435,7 @@ def process_chunk(prop, st, binp, asan_bin, seed, tier, a, b, workdir, agg, lock
         with lock:
             for ev in res['events']:
                 t = ev.get('ev')
-                if t == 'summary':
+                if t == 'summary' or t == 'partial':
                     merge_summary(agg, ev)
                 elif t == 'viol':
                     ev['_stage'] = st
